@@ -17,6 +17,7 @@ import os
 import random
 import sys
 import time
+import zlib
 
 from . import env, findings, seams, shrink
 
@@ -76,7 +77,7 @@ def _work(args):
     try:
         mod = prop_module(pid)
         agg = {"n": 0, "stats": {}, "nt": set(), "viol": [], "samples": [], "steps": 0, "digests": [],
-               "first": start, "last": start - 1, "states": set(), "state_runs": 0}
+               "first": start, "last": start - 1, "states": set(), "state_runs": 0, "sched": set()}
         sample = 1 if tier == "quick" else 64
         for i in range(start, stop):
             if deadline and time.time() > deadline:
@@ -92,6 +93,8 @@ def _work(args):
                 agg["state_runs"] += 1
             for k, v in res.stats.items():
                 agg["stats"][k] = agg["stats"].get(k, 0) + v
+            if "ranks" in spec and i % sample == 0:
+                agg["sched"].add(zlib.crc32(json.dumps([spec.get("model"), spec.get("ranks")], sort_keys=True).encode()))
             if res.nontrivial:
                 agg["nt"].add(spec_digest(spec))
                 if len(agg["samples"]) < 1:
@@ -132,8 +135,9 @@ def run_campaign(pid, tier="quick", base_seed=0, workers=None, n=None, wall_cap=
         with cf.ProcessPoolExecutor(max_workers=workers, mp_context=ctx) as ex:
             for a in ex.map(_work, jobs):
                 aggs.append(a)
-    total = {"n": 0, "stats": {}, "nt": set(), "viol": [], "samples": [], "steps": 0, "digests": [], "states": set(), "state_runs": 0}
+    total = {"n": 0, "stats": {}, "nt": set(), "viol": [], "samples": [], "steps": 0, "digests": [], "states": set(), "state_runs": 0, "sched": set()}
     for a in aggs:
+        total["sched"] |= a["sched"]
         total["states"] |= a["states"]
         total["state_runs"] += a["state_runs"]
         total["n"] += a["n"]
@@ -212,6 +216,13 @@ def evidence(pid, mod, tier, base_seed, total, n_viol, extra=None):
                             "measure": "distinct crc32 digests of the complete live state (tasks, components, workers, facilities, "
                                        "workplaces) at the 'recorded' instant of a step; every run in quick, every 64th run in thorough"},
         "simulated_time_steps": total["steps"],
+        "distinct_schedules": {"count": len(total["sched"]),
+                               "measure": "distinct (model, hash-rank assignment) pairs = distinct iteration orders of the task/component sets "
+                                          "that were executed as main run (twin runs under further schedules are counted in counters.schedules_compared); "
+                                          "same sampling as distinct_states"},
+        "fault_counts": {k: v for k, v in sorted(total["stats"].items())
+                         if k.startswith(("fault.", "pause_", "inject_", "injected_run", "time_limit", "stage_", "op_", "history", "mode_", "edit_runs",
+                                          "with_subproject", "refusal_", "twin_", "roundtrip_checked", "json_restart", "backward_prelude", "absence_"))},
         "components": COMPONENTS,
         "workers": total["workers"],
         "exhaustive": False,
